@@ -170,6 +170,9 @@ DIFFERENT += [
      'def f(self, x):\n    b = x.a\n    if b:\n        self.p = b\n    else:\n        self.p = b',
      'def f(self, x):\n    if x.a:\n        self.p = True\n    else:\n        self.p = False'),
     ('attribute default then an override that can fail', 'def f(self, t):\n    self.m = None\n    if t:\n        self.m = M()\n    self.n = 1', 'def f(self, t):\n    self.m = M() if t else None\n    self.n = 1'),
+    ('two lookups extracted in the other order (which one fails first changes)', 'def f(self, xs, ys):\n    return self.g(xs[0], ys[0])', 'def f(self, xs, ys):\n    b = ys[0]\n    a = xs[0]\n    return self.g(a, b)'),
+    ('lookup extracted above a state change', 'def f(self, xs):\n    self.n += 1\n    return xs[0]', 'def f(self, xs):\n    a = xs[0]\n    self.n += 1\n    return a'),
+    ('lookup that was conditional made unconditional', 'def f(self, c, xs):\n    if c:\n        return xs[0]\n    return 0', 'def f(self, c, xs):\n    a = xs[0]\n    if c:\n        return a\n    return 0'),
 ]
 
 SAME = [
@@ -211,11 +214,13 @@ SAME = [
     ('get on a module-level dict display', 'def f(k):\n    return D.get(k, 0)', 'def f(k):\n    if k in D:\n        return D[k]\n    return 0', {'dicts': ['D']}),
     ('method of a chosen object', 'def f(c, v):\n    return (A if c else B).match(v)', 'def f(c, v):\n    return A.match(v) if c else B.match(v)'),
     ('percent with a decoded operand', "def f(b):\n    return 'x %s' % b.decode('ascii')", "def f(b):\n    return f\"x {b.decode('ascii')}\""),
-    ('extend only reads its argument', 'def f(self, out):\n    n = len(self.p)\n    out.extend(self.p)\n    return n', 'def f(self, out):\n    out.extend(self.p)\n    return len(self.p)'),
+    ('extend only reads its argument', 'def f(self, out):\n    n = len(self.p)\n    out.extend(self.p)\n    return n', 'def f(self, out):\n    out.extend(self.p)\n    return len(self.p)', {'sized': [('self', 'p')]}),
     ('annotated assignment in a function', 'def f(self, v):\n    self.n: int = int(v)', 'def f(self, v):\n    self.n = int(v)'),
     ('flag taken once and reused after the branch',
      'def f(self, xs):\n    prev = True\n    for x in xs:\n        if not prev:\n            self.n += 1\n        if x.a == 1:\n            yield x\n            prev = True\n        else:\n            prev = x.a == 1',
      'def f(self, xs):\n    prev = True\n    for x in xs:\n        last = x.a == 1\n        if not prev:\n            self.n += 1\n        if last:\n            yield x\n        prev = last'),
+    ('two lookups extracted in the order of their use', 'def f(self, xs):\n    return self.g(xs[0], xs[-1])', 'def f(self, xs):\n    a = xs[0]\n    b = xs[-1]\n    return self.g(a, b)'),
+    ('lookup extracted and used twice', 'def f(self, xs):\n    if xs[0] > 0:\n        return xs[0] + 1\n    return 0', 'def f(self, xs):\n    a = xs[0]\n    if a > 0:\n        return a + 1\n    return 0'),
 ]
 
 
@@ -240,7 +245,7 @@ def _canon(src, extra, side):
     if hs:
         h = ast.parse(hs).body[0]
         helpers = {h.name: (h, bool(h.args.args) and h.args.args[0].arg == 'self' or any(isinstance(d, ast.Name) and d.id == 'staticmethod' for d in h.decorator_list))}
-    return equiv.canonical(ast.parse(src).body[0], helpers, dicts=extra.get('dicts'), ctx={'seqs': extra.get('seqs', ())})
+    return equiv.canonical(ast.parse(src).body[0], helpers, dicts=extra.get('dicts'), sized=extra.get('sized'), ctx={'seqs': extra.get('seqs', ())})
 
 
 def run():
